@@ -64,17 +64,17 @@ var (
 // TxPlan is a materialised intent: the tx that goes into the block plus what the harness knows
 // about it (needed by the oracles).
 type TxPlan struct {
-	Intent    Intent
-	Bytes     []byte
-	Tx        *rtypes.Trx // decoded form of Bytes (nil if undecodable)
-	Hash      []byte
-	Garbage   bool // raw bytes, not a well-formed signed tx of ours
-	Tampered  bool // altered after signing in a way that changes a signed field / signer / chain
+	Intent       Intent
+	Bytes        []byte
+	Tx           *rtypes.Trx // decoded form of Bytes (nil if undecodable)
+	Hash         []byte
+	Garbage      bool // raw bytes, not a well-formed signed tx of ours
+	Tampered     bool // altered after signing in a way that changes a signed field / signer / chain
 	SigMalleated bool
-	Signer    Addr
-	ReplayOf  int // >=0 : bytes of an earlier included tx
-	StakeSeq  int // unstake: which stake was meant (-1 unknown)
-	PropID    string
+	Signer       Addr
+	ReplayOf     int // >=0 : bytes of an earlier included tx
+	StakeSeq     int // unstake: which stake was meant (-1 unknown)
+	PropID       string
 }
 
 func parseBigSym(s string) (*big.Int, bool) {
